@@ -29,5 +29,12 @@ for d in "$VERIF"/seeded/C*-*/; do
   if [ ${#pids[@]} -ge 5 ]; then wait "${pids[0]}"; pids=("${pids[@]:1}"); fi
 done
 wait
-sort "$OUT.tmp" > "$OUT"; rm -f "$OUT.tmp"
+# merge: rows of the changes examined in this run replace their old rows, the others are kept
+if [ -f "$OUT" ]; then
+  cut -f1 "$OUT.tmp" | sort -u > "$OUT.ids"
+  if [ $ALL = 1 ]; then grep -v -F -w -f "$OUT.ids" "$OUT" >> "$OUT.tmp" || true
+  else awk -F'\t' 'NR==FNR{ids[$1]=1;next} !(($1 in ids) && (substr($1,1,3)==$2))' "$OUT.ids" "$OUT" >> "$OUT.tmp" || true; fi
+  rm -f "$OUT.ids"
+fi
+sort -u "$OUT.tmp" > "$OUT"; rm -f "$OUT.tmp"
 cat "$OUT"
